@@ -97,4 +97,11 @@ TEXT["C16"] = {
     "note": COMMON_NOTE + "Only a subset of the shots of each run is sent to the oracle (first, stripe boundaries, last); the replay comparison covers all shots.",
     "technique": "Lean 4 theorems (XOR fold laws) + per-shot oracle correspondence and replay equality under sanitizers",
 }
+TEXT["C17"] = {
+    "level": "Kernel-checked: the exhaustive reference minimum is sound (a reported minimum k is witnessed by k elements of the model that cancel every detector and flip an observable) and minimal "
+             "(no enumerated smaller sub-list does), for every element list. Correspondence: every answer of the graphlike and hypergraph searches passes the checker and has the reference size; a failure is "
+             "accepted only when the reference finds no solution; generated WCNF instances are decided exhaustively (feasibility <=> undetectable logical error; unit soft clauses with the documented weights).",
+    "note": COMMON_NOTE + "The searches themselves are not modelled (oracle correspondence). One genuine defect fixed (repeated detector targets were treated as a self-loop instead of cancelling).",
+    "technique": "Lean 4 theorems (soundness + minimality of the exhaustive reference) + oracle correspondence incl. exhaustive MaxSAT evaluation",
+}
 NOT_CLAIMED = {}
